@@ -467,14 +467,15 @@ def classifyPlainF (cur : Value) (full : Bytes) (vlen : Nat) : Value :=
   let n := cAtoi 64 full
   if (n != 0 || full == [48]) && intDecimal n == full then { cur with int64 := n, type := .T_INT }
   else
-    let opc := getOpCode full
-    if opc != 0xff then { cur with int64 := n, opcode := opc, type := .T_OPCODE }
-    else if vlen % 2 == 0 then
-      let h := if vlen > 2 && full.getD 0 0 == 48 && full.getD 1 0 == 120 then full.drop 2 else full
-      let r := tryHexP h []
-      if r.1 then { cur with int64 := n, opcode := 0xff, data := r.2, type := .T_DATA }
-      else { cur with int64 := n, opcode := 0xff, data := [] }      -- `data.clear()` after a failed TryHex
-    else { cur with int64 := n, opcode := 0xff }
+    match parseOpCode full with     -- `if (ParseOpCode(v, opcode)) { type = T_OPCODE; return; }`; a refusal leaves opcode = 0xff
+    | some opc => { cur with int64 := n, opcode := opc, type := .T_OPCODE }
+    | none =>
+      if vlen % 2 == 0 then
+        let h := if vlen > 2 && full.getD 0 0 == 48 && full.getD 1 0 == 120 then full.drop 2 else full
+        let r := tryHexP h []
+        if r.1 then { cur with int64 := n, opcode := 0xff, data := r.2, type := .T_DATA }
+        else { cur with int64 := n, opcode := 0xff, data := [] }      -- `data.clear()` after a failed TryHex
+      else { cur with int64 := n, opcode := 0xff }
 
 /-- `parse_args(const std::vector<const char*>)` in the transform monad (see `parseArgsListWith`) -/
 def parseArgsListM (mk : Bytes → Nat → TM Value) : List Bytes → Bytes → Int → List Value → TM (List Value)
